@@ -284,6 +284,7 @@ def extract_fn(repo, blk, meta, mode):
     item = X.drop_vis(item, log)
     item = X.erase_async(item, log)
     item = X.closure_underscore(item, log)
+    item = X.desugar_iter_mut(item, log)
     item = X.desugar_range_inclusive(item, log)
     if blk.orsplit:
         item = X.split_or_arms(item, log)
@@ -340,6 +341,9 @@ def extract_fn(repo, blk, meta, mode):
         if 'self' in names and ':' not in names:
             if blk.selfmut and pt == '&self':
                 log.append(('R4', '&self -> &mut self (lock erasure)', src_line))
+                pt = '&mut self'
+            elif blk.selfmut and pt == 'self':
+                log.append(('R2', 'method of `impl Trait for &mut T` re-homed to T: by-value `self` (a `&mut T`) -> `&mut self`', src_line))
                 pt = '&mut self'
             ptexts.append(pt)
             continue
